@@ -38,7 +38,12 @@ pub enum St {
     BadParams { s: Scheme, t: usize, n: usize },
     /// an in-range split that the library refused (index into the failure list)
     SplitRefused(usize),
+    /// a (2,3) splitting partially signing a long message (length index into LONG_LENS)
+    LongMessage { s: Scheme, len: usize },
 }
+
+/// 64 KiB, 2 MiB, 4 MiB, 16 MiB boundaries (+1): request-size guards and 16 / 32 bit length arithmetic
+const LONG_LENS: [usize; 4] = [65537, (1 << 21) + 1, (1 << 22) + 1, (1 << 24) + 1];
 
 #[derive(Clone, Debug, PartialEq)]
 pub enum Act {
@@ -162,6 +167,11 @@ impl<C: Suite> Model for M08<C> {
         for i in 0..self.failed.len() {
             v.push(St::SplitRefused(i));
         }
+        for s in [Scheme::Basic, Scheme::Pop] {
+            for len in 0..LONG_LENS.len() {
+                v.push(St::LongMessage { s, len });
+            }
+        }
         v
     }
     fn actions(&self, st: &St) -> Vec<Act> {
@@ -251,6 +261,7 @@ impl<C: Suite> Model for M08<C> {
         match st {
             St::BadParams { s, t, n } => format!("{} {} split(threshold={}, limit={}) must be refused", C::G, s.name(), t, n),
             St::SplitRefused(i) => format!("{} split(threshold={}, limit={}) is in range and must succeed", C::G, self.failed[*i].1, self.failed[*i].2),
+            St::LongMessage { s, len } => format!("{} {} (2,3) shares partially sign a message of {} bytes; recombined = whole key signature", C::G, s.name(), LONG_LENS[*len]),
             St::Collect { inst, seq, fault } => {
                 let it = &self.insts[*inst];
                 format!("{} {} ({},{}) collected ids {:?} fault {:?}: combine / PublicKey::from_shares / Signature::from_shares", C::G, it.s.name(), it.t, it.n, if seq.len() > 12 { &seq[..12] } else { &seq[..] }, fault)
@@ -272,6 +283,27 @@ impl<C: Suite> Model for M08<C> {
         let g = C::G;
         o.nontrivial = true;
         match st {
+            St::LongMessage { s, len } => {
+                use rand_core::SeedableRng;
+                let n = LONG_LENS[*len];
+                let msg = msg_of(1, n, 2);
+                let sk = SecretKey::<C>::from_hash(b"c08 long message");
+                let shares = sk.split_with_rng(2, 3, rand_chacha::ChaCha20Rng::from_seed([8u8; 32])).expect("split");
+                let r = guard(|| -> Result<bool, String> {
+                    let parts: Vec<SignatureShare<C>> = shares[1..].iter().map(|x| x.sign(lib_scheme(*s), &msg).map_err(|e| e.to_string())).collect::<Result<_, _>>()?;
+                    for (sh, p) in shares[1..].iter().zip(parts.iter()) {
+                        if sh.public_key().map_err(|e| e.to_string())?.verify(p, &msg).is_err() {
+                            return Err("a partial signature does not verify against its own key share".into());
+                        }
+                    }
+                    let whole = sk.sign(lib_scheme(*s), &msg).map_err(|e| e.to_string())?;
+                    Ok(Signature::<C>::from_shares(&parts).map_err(|e| e.to_string())? == whole)
+                });
+                o.calls(6);
+                let band = if n > (1 << 22) { ">4MiB" } else if n > (1 << 21) { ">2MiB" } else if n > 65536 { ">64KiB" } else { "<=64KiB" };
+                o.outcome(if matches!(r, Ok(Ok(true))) { "long-message:recombines" } else { "long-message:fails" });
+                o.expect(&format!("C08:partial-signatures-over-a-long-message:{}:{}:{}", g, s.name(), band), matches!(r, Ok(Ok(true))), "partial signatures recombine to the whole key signature", &format!("{:?}", r));
+            }
             St::SplitRefused(i) => {
                 let (s, t, n, e) = &self.failed[*i];
                 o.outcome("split-in-range:refused");
@@ -525,7 +557,7 @@ impl<C: Suite> Model for M08<C> {
 
 fn depth_of<C: Suite>(_m: &M08<C>, s: &St) -> usize {
     match s {
-        St::BadParams { .. } | St::SplitRefused(_) => 0,
+        St::BadParams { .. } | St::SplitRefused(_) | St::LongMessage { .. } => 0,
         St::Collect { seq, fault, .. } => seq.len() + fault.is_some() as usize,
     }
 }
